@@ -1174,6 +1174,33 @@ pub fn gen_cycle_case(r: &mut Rng) -> Case {
     Case { prog, init, ops }
 }
 
+/// C22: systematic panic injection. For a small base case, every request position × every kind of
+/// user code (b = tracked function body, e = event callback, q = tracked-field `PartialEq`) ×
+/// every k = 1..=kmax ("the k-th such user call of that op panics") gives one derived case.
+pub fn gen_inject_cases(r: &mut Rng, kmax: u32) -> Vec<Case> {
+    let mut base = gen_case(r, Profile::Full);
+    base.ops.truncate(12);
+    // make sure there are requests after the injected one
+    let n = base.prog.nodes.len();
+    for _ in 0..3 {
+        base.ops.push(Op::Get(r.usize(n)));
+    }
+    let mut out = vec![];
+    for p in 0..base.ops.len() {
+        if !matches!(base.ops[p], Op::Get(_)) {
+            continue;
+        }
+        for w in ['b', 'e', 'q'] {
+            for k in 1..=kmax {
+                let mut c = base.clone();
+                c.ops.insert(p, Op::Inject(w, k));
+                out.push(c);
+            }
+        }
+    }
+    out
+}
+
 pub fn case_hash(c: &Case) -> u64 {
     use std::hash::{Hash, Hasher};
     let mut h = std::collections::hash_map::DefaultHasher::new();
